@@ -216,7 +216,7 @@ def check_reader(S, p):
         rr = cli.sfs(["view"], stdin=d)
         S.count("reject_files")
         if rr.rc == 0 or rr.out or rr.panicked:
-            S.viol("C15:reader-accepts:cli:%s" % name.split()[0], "[C view on %s] rc %s stdout %r stderr %r" % (name, rr.rc, rr.out[:80], rr.err[:200]), {"level": "C", "input_b64": E.b64(d)})
+            S.viol("C15:reader-accepts:cli:%s" % name.split()[0], "[C view on %s] rc %s stdout %r stderr %r" % (name, rr.rc, rr.out[:80], rr.err[:200]), {"level": "C", "input_b64": E.b64(d), "replay": __import__("vf.replay", fromlist=["x"]).reject(rr)})
         S.case(key=digest(d), nontrivial=True)
 
 
